@@ -573,6 +573,7 @@ type cutServer struct {
 	fin     bool // cut by a clean close (FIN) instead of a reset (RST)
 	bare    bool // error responses without a body (Content-Length: 0)
 	etag    string // when set: sent as ETag on every 200/206 and answered to HEAD requests (the cache's index path)
+	refuse  int    // the first `refuse` GET requests are answered 503 (with or without a body, see bare)
 	// what happened, for the expectations handed to Coq
 	effCuts  int  // connections actually cut
 	corner   bool // a connection cut after its last body byte, before the end marker
@@ -601,9 +602,15 @@ func (s *cutServer) ServeHTTP(w http.ResponseWriter, r *http.Request) {
 		cut = s.cuts[0]
 		s.cuts = s.cuts[1:]
 	}
+	refused := s.refuse > 0
+	if refused {
+		s.refuse--
+	}
 	s.mu.Unlock()
 	status, body := 200, s.data
-	if off >= 0 {
+	if refused {
+		status, body = 503, nil
+	} else if off >= 0 {
 		switch s.kind {
 		case 0:
 			if off < len(s.data) {
